@@ -90,6 +90,7 @@ type Engine struct {
 	MaxDepth   int
 	Seams      func(key string) bool // interface methods never resolved to implementers
 	NoInline   func(key string) bool
+	PureFn     func(key string) bool // in-scope helpers kept opaque (with NoInline) that are functions of their arguments; their definitions are checked separately
 	KeepValues func(key string) bool // small pure helpers whose per-case result values are kept (not renamed to extract:i(call))
 	sites      map[siteKey]int32
 	siteInfo   []siteKey
